@@ -69,7 +69,7 @@ TraceSnap ==
 TraceCall ==
     /\ IsEvent("Call")
     /\ LET g == S.descs[Ev.d]
-           o == IF Has(orcs, Ev.d) THEN orcs[Ev.d] ELSE Oracle(g, S.exact)
+           o == IF Has(orcs, Ev.d) THEN orcs[Ev.d] ELSE Oracle(g, S.exact, S.eps)
        IN  /\ desc' = g /\ orc' = o /\ orcs' = Put(orcs, Ev.d, o)
            /\ prune' = Ev.prune /\ pc' = "called" /\ nodes' = g.tr
     /\ dcur' = Ev.d /\ mode' = Ev.mode
